@@ -43,6 +43,7 @@ def impl_run(task):
     from .sysimpl import _Alarm
     Shape._sympy_globals.setdefault("pi", sympy.pi) if False else None
     expr = task["expr"]
+    tsym = task.get("tsym", "t")
     out = {"outcome": "Ok"}
 
     def handler(signum, frame):
@@ -52,10 +53,12 @@ def impl_run(task):
     defaults = dict(Config.config)
     try:
         try:
+            if tsym != "t":
+                Config.config["input_time_symbol"] = tsym
             sh = Shape.from_function("g", expr)
             out["order"] = sh.order
             out["factors"] = [str(x) for x in sh.derivative_factors]
-            out["t_in_factors"] = any(sympy.Symbol("t") in sympy.sympify(x).free_symbols for x in sh.derivative_factors)
+            out["t_in_factors"] = any(sympy.Symbol(tsym) in sympy.sympify(x).free_symbols for x in sh.derivative_factors)
             out["ivs"] = {k: str(v) for k, v in sh.initial_values.items()}
         except _Alarm:
             out["order"] = "Timeout"
@@ -66,9 +69,12 @@ def impl_run(task):
             out["order"] = "NoNonzeroTime" if "Cannot find t" in msg else ("NoOde" if "does not satisfy any ODE" in msg else "Error:" + impl_worker.classify_exception(e) + ":" + msg[:100])
         if isinstance(out.get("order"), int):
             try:
-                res = odetoolbox.analysis({"dynamics": [{"expression": "g = " + expr}]}, disable_stiffness_check=True)
+                ind = {"dynamics": [{"expression": "g = " + expr}]}
+                if tsym != "t":
+                    ind["options"] = {"input_time_symbol": tsym}
+                res = odetoolbox.analysis(ind, disable_stiffness_check=True)
                 signal.alarm(0)
-                out["probe"] = _probe(expr, res, task.get("pseed", 1))
+                out["probe"] = _probe(expr, res, task.get("pseed", 1), tsym)
             except _Alarm:
                 out["probe"] = {"skipped": "timeout"}
             except BaseException as e:   # noqa
@@ -84,7 +90,7 @@ def impl_run(task):
     try:
         ns = {"e": sympy.E, "pi": sympy.pi}
         f = sympy.sympify(expr, locals=ns)
-        t = sympy.Symbol("t")
+        t = sympy.Symbol(tsym)
         tab = []
         for k in range(100):
             v = f.subs(t, k)
@@ -96,7 +102,12 @@ def impl_run(task):
     return out
 
 
-def _probe(expr, res, seed):
+def impl_seq(task):
+    """several from_function / analysis calls one after another in this process (the same text under different time symbols)"""
+    return {"outcome": "Ok", "results": [impl_run(dict(sub, limit=task.get("limit", 60))) for sub in task["subs"]]}
+
+
+def _probe(expr, res, seed, tsym="t"):
     """step from the returned initial values over random steps totalling T; compare with f(T), f'(T), ..."""
     import random
     import mpmath
@@ -107,9 +118,10 @@ def _probe(expr, res, seed):
     if not ana:
         return {"error": "no analytical solver for a function of time"}
     ana = ana[0]
-    ns = {"e": sympy.E, "E": sympy.E, "pi": sympy.pi, "Symbol": sympy.Symbol, "Integer": sympy.Integer, "Float": sympy.Float, "Rational": sympy.Rational,
-          "exp": sympy.exp, "sin": sympy.sin, "cos": sympy.cos, "cosh": sympy.cosh, "sinh": sympy.sinh, "log": sympy.log, "sqrt": sympy.sqrt, "I": sympy.I}
-    t = sympy.Symbol("t")
+    ns = {}
+    exec("from sympy import *", ns)     # the printer's vocabulary (Symbol, Float, Function, tanh, ...)
+    ns.update({"e": sympy.E, "E": sympy.E})
+    t = sympy.Symbol(tsym)
     f = sympy.sympify(expr, locals={"e": sympy.E, "pi": sympy.pi})
     sv = ana["state_variables"]
     n = len(sv)
@@ -173,12 +185,37 @@ def run(ctx):
     funcs = list(FUNCS) + ([] if quick else SLOW)
     limit = 70 if quick else 900
     tasks = [{"fn": "c05.impl_run", "expr": e, "limit": limit, "pseed": rng.randint(1, 10 ** 6), "timeout": limit * 2 + 60} for e, _ in funcs]
-    res = C.run_tasks(tasks, timeout=limit * 2 + 60)
+    # the same text under different time symbols, one after another in ONE interpreter: the default symbol, a symbol the text
+    # does not mention (every symbol of the text is then a parameter: the function is constant in time), the text rewritten
+    # to the other symbol, and the default again
+    import re
+    cand = [(e, m) for e, m in FUNCS if m == "nozero" or m is None or (isinstance(m, int) and m <= 3)]
+    twins = rng.sample(cand, 6 if quick else len(cand))
+    seq_tasks = []
+    for e, m in twins:
+        other = rng.choice(["s", "x", "T_"])
+        e_o = re.sub(r"\bt\b", other, e)
+        m_const = "nozero" if m == "nozero" else 1
+        subs = [(e, "t", m), (e, other, m_const), (e_o, other, m), (e_o, "t", m_const), (e, "t", m)]
+        subs = subs[rng.randint(0, 2):]
+        seq_tasks.append({"fn": "c05.impl_seq", "subs": [{"expr": a, "tsym": b, "pseed": rng.randint(1, 10 ** 6)} for a, b, _ in subs], "ms": [c for _, _, c in subs],
+                          "limit": limit, "timeout": (limit * 2 + 60) * len(subs), "fresh": True})
+    res = C.run_tasks(tasks + seq_tasks, timeout=(limit * 2 + 60) * 5)
     coq, info, probe_failures, corr_errors = [], [], [], []
-    dist = {"by_minimal_order": {}, "outcomes": {}, "timeouts": 0, "probed": 0, "probe_skipped": 0}
+    dist = {"by_minimal_order": {}, "outcomes": {}, "timeouts": 0, "probed": 0, "probe_skipped": 0, "time_symbols": {}, "same_interpreter_sequences": len(seq_tasks)}
     nontriv = set()
     samples = []
-    for (expr, m), r in zip(funcs, res):
+    items = [(expr, "t", m, r, None) for (expr, m), r in zip(funcs, res[:len(funcs)])]
+    for t_, r in zip(seq_tasks, res[len(funcs):]):
+        if r.get("outcome") != "Ok":
+            corr_errors.append("worker failed on sequence %s: %s" % (t_["subs"], str(r)[:200]))
+            continue
+        for i, (sub, m, rr) in enumerate(zip(t_["subs"], t_["ms"], r["results"])):
+            items.append((sub["expr"], sub["tsym"], m, rr, [[x["expr"], x["tsym"]] for x in t_["subs"][:i + 1]]))
+    for expr0, tsym, m, r, seq in items:
+        expr = expr0 if (tsym == "t" and seq is None) else "%s [time symbol %s%s]" % (expr0, tsym, ", after %d earlier conversions in the same interpreter" % (len(seq) - 1) if seq and len(seq) > 1 else "")
+        rp_ = {"expr": expr0, "tsym": tsym, "sequence": seq, "m": m}
+        dist["time_symbols"][tsym] = dist["time_symbols"].get(tsym, 0) + 1
         if r.get("outcome") != "Ok":
             corr_errors.append("worker failed on %s: %s" % (expr, str(r)[:200]))
             continue
@@ -191,20 +228,20 @@ def run(ctx):
         # ---- probe: the property text
         if isinstance(o, int):
             if o > 4 or o < 1:
-                probe_failures.append({"key": "order out of range: " + expr, "what": "from_function(%s) returned order %s (documented maximum 4)" % (expr, o), "replay": {"expr": expr}})
+                probe_failures.append({"key": "order out of range: " + expr, "what": "from_function(%s) returned order %s (documented maximum 4)" % (expr, o), "replay": rp_})
             if r.get("t_in_factors"):
-                probe_failures.append({"key": "time-dependent coefficients: " + expr, "what": "the replacing equation of %s has coefficients depending on t: %s" % (expr, r["factors"]), "replay": {"expr": expr}})
+                probe_failures.append({"key": "time-dependent coefficients: " + expr, "what": "the replacing equation of %s has coefficients depending on t: %s" % (expr, r["factors"]), "replay": rp_})
             if m is None or (isinstance(m, int) and m > 4):
-                probe_failures.append({"key": "function outside the class accepted: " + expr, "what": "%s satisfies no linear constant-coefficient ODE of order <= 4 but was accepted with order %s, factors %s" % (expr, o, r["factors"]), "replay": {"expr": expr}})
+                probe_failures.append({"key": "function outside the class accepted: " + expr, "what": "%s satisfies no linear constant-coefficient ODE of order <= 4 but was accepted with order %s, factors %s" % (expr, o, r["factors"]), "replay": rp_})
             pr = r.get("probe", {})
             if "worst" in pr:
                 dist["probed"] += 1
                 if pr["worst"] > 1e-10:
-                    probe_failures.append({"key": "function of time not reproduced: " + expr, "what": "%s: %s" % (expr, pr["detail"]), "replay": {"expr": expr}})
+                    probe_failures.append({"key": "function of time not reproduced: " + expr, "what": "%s: %s" % (expr, pr["detail"]), "replay": rp_})
             elif "error" in pr and "PropagatorGenerationException" in pr["error"]:
                 dist["rejected_at_propagator_generation"] = dist.get("rejected_at_propagator_generation", 0) + 1
             elif "error" in pr:
-                probe_failures.append({"key": "function of time: analysis fails: " + expr, "what": "%s accepted by from_function but analysis() gives %s" % (expr, pr["error"]), "replay": {"expr": expr}})
+                probe_failures.append({"key": "function of time: analysis fails: " + expr, "what": "%s accepted by from_function but analysis() gives %s" % (expr, pr["error"]), "replay": rp_})
             else:
                 dist["probe_skipped"] += 1
         # ---- correspondence with the ideal-oracle model
@@ -215,15 +252,15 @@ def run(ctx):
         mm = 0 if (m is None or m == "nozero") else m
         code = o if isinstance(o, int) else (100 if o == "NoNonzeroTime" else 0)
         coq.append("((%s, %d%%nat), %d%%nat)" % (C.clist([C.cbool(b) for b in r["nonzero"]]), mm, code))
-        info.append({"function": expr, "minimal_order": m, "implementation": o, "factors": r.get("factors")})
+        info.append({"function": expr, "minimal_order": m, "implementation": o, "factors": r.get("factors"), "replay": rp_})
         nontriv.add(expr)
         if len(samples) < 3 and isinstance(o, int) and o >= 2:
             samples.append({"function": expr, "order": o, "factors": r["factors"], "initial_values": r["ivs"]})
     mism, errs = C.coq_eval_shards(PROP, HEADER, coq, per=50)
     corr_errors += errs
     corr_mismatches = [{"layer": "Shape.from_function outcome vs Model/FromFunction with the ideal oracle for the known minimal order", "case": info[i]} for i in mism[:6]]
-    return {"evaluations": len(funcs), "distinct_nontrivial": len(nontriv),
-            "rule": "functions of time with minimal order known by construction (sums/products of polynomials, exponentials, sines/cosines with symbolic or numeric constants; orders 1..5), functions outside the class (exp(-t^2), 1/(1+t), log(1+t), tanh t, t^4), a function vanishing at every integer; per-case time limit %ss; distinct functions" % limit,
+    return {"evaluations": len(items), "distinct_nontrivial": len(nontriv),
+            "rule": "functions of time with minimal order known by construction (sums/products of polynomials, exponentials, sines/cosines with symbolic or numeric constants; orders 1..5), functions outside the class (exp(-t^2), 1/(1+t), log(1+t), tanh t, t^4), a function vanishing at every integer; plus sequences in ONE interpreter of the same text under the default time symbol, under a symbol the text does not mention (the function is then constant in time: order 1, or rejected if zero), rewritten to that symbol, and under the default again; per-case time limit %ss; distinct (function, time symbol, position in sequence)" % limit,
             "samples": samples, "distribution": dist,
             "layers": {"L1 accept/reject and order (in Coq)": len(coq), "probe: stepping reproduces f and its derivatives; initial values; no t in factors; order <= 4": dist["probed"]},
             "corr_mismatches": corr_mismatches, "corr_errors": corr_errors, "probe_failures": probe_failures}
@@ -233,8 +270,12 @@ def replay(payload):
     rp = payload.get("replay") or {}
     if "expr" not in rp:
         return True, "replay file names a broken obligation (no concrete input): " + str(payload.get("no_longer_checks"))[:500]
-    m = dict((e, mm) for e, mm in FUNCS + SLOW).get(rp["expr"])
-    r = C.run_tasks([{"fn": "c05.impl_run", "expr": rp["expr"], "limit": 900, "timeout": 2000}], timeout=2000)[0]
+    m = rp["m"] if "m" in rp else dict((e, mm) for e, mm in FUNCS + SLOW).get(rp["expr"])
+    seq = rp.get("sequence") or [[rp["expr"], rp.get("tsym", "t")]]
+    r = C.run_tasks([{"fn": "c05.impl_seq", "subs": [{"expr": a, "tsym": b} for a, b in seq], "limit": 900, "timeout": 2000 * len(seq), "fresh": True}], timeout=2000 * len(seq))[0]
+    if r.get("outcome") != "Ok":
+        return True, "replay could not run: %s" % str(r)[:200]
+    r = r["results"][-1]
     o = r.get("order")
     if isinstance(o, int):
         if o > 4 or r.get("t_in_factors") or m is None or (isinstance(m, int) and m > 4):
